@@ -86,12 +86,12 @@ struct Scn {
             int a = atoi(w[2].c_str() + 1);
             int r = rounds_done[a];
             char fl = specs[a][2 + r][0];
-            node_of[mx._requests.raw()] = {a, (fl == 'c' || fl == 'k') ? 0 : r + 1};
+            node_of[mx.VN_mutex__requests.raw()] = {a, (fl == 'c' || fl == 'k') ? 0 : r + 1};
         }
         std::vector<std::pair<std::pair<int, int>, const awaiter *>> known;
         for (auto &kv : node_of) known.push_back({kv.second, static_cast<const awaiter *>(kv.first)});
         std::sort(known.begin(), known.end());
-        std::string d = "p req=" + pname(mx._requests.raw()) + " queue=" + pname(mx._queue) + " |";
+        std::string d = "p req=" + pname(mx.VN_mutex__requests.raw()) + " queue=" + pname(mx.VN_mutex__queue) + " |";
         for (auto &k : known)
             d += " n" + std::to_string(k.first.first) + "." + std::to_string(k.first.second) + ">" + pname(k.second->_next);
         std::cout << d << "\n";
@@ -136,7 +136,7 @@ struct Scn {
 
     // blocking lock, spelled as the round asks; `in_coro`: the caller is an ordinary function running inside a coroutine
     __attribute__((noinline)) void do_blocking_lock(mutex_t::ownership *o, const std::string &rd, bool in_coro) {
-        bool legal_wait = !in_coro || mx._requests.raw() == nullptr;   // wait() asserts in a coroutine unless there is nothing to wait for
+        bool legal_wait = !in_coro || mx.VN_mutex__requests.raw() == nullptr;   // wait() asserts in a coroutine unless there is nothing to wait for
         if (has_opt(rd, 'f') || !legal_wait) *o = mx.lock().force_wait();
         else if (has_opt(rd, 'o')) { mutex_t::ownership own(mx.lock()); *o = std::move(own); }
         else *o = mx.lock().wait();
@@ -191,7 +191,7 @@ struct Scn {
             me->got = true;
             return {};
         }
-        void arm() { set_resume_fn(&granted, this); }
+        void arm() { VN_awaiter_set_resume_fn(&granted, this); }
         mutex_t::ownership *o;
         bool got = false;
     };
@@ -240,10 +240,10 @@ struct Scn {
         std::ostream *saved_out = S().out;
         if (digest) { linebuf.scn = this; S().out = &lineout; }
         struct Restore { std::ostream *o; ~Restore() { S().out = o; } } restore{saved_out};
-        S().name_obj(&mx._requests, "req");
+        S().name_obj(&mx.VN_mutex__requests, "req");
         S().name_ptr(&awaiter::instance, "door");
         rounds_done.assign(threads.size(), 0);
-        for (std::size_t i = 0; i < threads.size(); i++) { aux.emplace_back(); S().name_obj(&aux.back()._requests, "aux"); }
+        for (std::size_t i = 0; i < threads.size(); i++) { aux.emplace_back(); S().name_obj(&aux.back().VN_mutex__requests, "aux"); }
         int tid = 0;
         for (auto &t : threads) {
             std::vector<std::string> rounds(t.begin() + 2, t.end());
@@ -258,14 +258,14 @@ struct Scn {
             std::cout.flush();
             _exit(0);
         }
-        std::string rq = mx._requests.raw() == nullptr ? "free" : (mx._requests.raw() == &awaiter::instance ? "locked" : "chain");
+        std::string rq = mx.VN_mutex__requests.raw() == nullptr ? "free" : (mx.VN_mutex__requests.raw() == &awaiter::instance ? "locked" : "chain");
         bool aux_free = true;
-        for (auto &m : aux) if (m._requests.raw() != nullptr) aux_free = false;
-        log("final req=" + rq + " queue=" + (mx._queue ? "nonempty" : "empty") + " slot=" + (slot ? "armed" : "empty") +
+        for (auto &m : aux) if (m.VN_mutex__requests.raw() != nullptr) aux_free = false;
+        log("final req=" + rq + " queue=" + (mx.VN_mutex__queue ? "nonempty" : "empty") + " slot=" + (slot ? "armed" : "empty") +
             " aux=" + (aux_free ? "free" : "locked"));
         for (std::size_t i = 0; i < threads.size(); i++)
             log("agent a" + std::to_string(i) + " rounds=" + std::to_string(rounds_done[i]) + "/" + std::to_string(threads[i].size() - 2));
-        if (mx._requests.raw() != nullptr || mx._queue || slot || !aux_free) { log("end"); std::cout.flush(); _exit(0); }
+        if (mx.VN_mutex__requests.raw() != nullptr || mx.VN_mutex__queue || slot || !aux_free) { log("end"); std::cout.flush(); _exit(0); }
     }
 };
 
